@@ -293,10 +293,10 @@ fn match_atoms(sr: &[Atom], ops: &[Operand], ix: &Index) -> Result<(), String> {
             || match (s, w, is_id) {
                 (Atom::Tok(t), Atom::Num(n), true) => {
                     let id: u32 = n.parse().unwrap_or(u32::MAX);
-                    ix.types.get(&id) == Some(t) || ix.consts.get(&id) == Some(t)
+                    ix.types.get(&id) == Some(t) || ix.consts.get(&id) == Some(t) || (ix.ambiguous && id == *t)
                 }
                 // a token rendering that looks like list / number syntax: `Token(k)` may be the literal k
-                (Atom::Tok(t), Atom::Num(n), false) if ix.ambiguous => n.parse::<u32>().ok() == Some(*t),
+                (Atom::Tok(t), Atom::Num(n), _) if ix.ambiguous && n.parse::<u32>().ok() == Some(*t) => true,
                 (Atom::Num(n), Atom::Num(m), true) if ix.ambiguous => {
                     let id: u32 = m.parse().unwrap_or(u32::MAX);
                     let t: Option<u32> = n.parse().ok();
